@@ -292,7 +292,7 @@ def _degenerate_ctor(leaf):
     return authority != "" and all(c in "@:" for c in a)
 
 
-@finding("D14b", ["C09", "C08"])
+@finding("D14b", ["C09", "C08", "C03"])
 def d14b_degenerate_authority_eager_host(prop, mech, case, info, variant):
     """Mechanism: the parser normalises an authority with empty userinfo, host
     and port ('//:', '//@', '//:@' without password...) to an empty netloc but
@@ -300,7 +300,7 @@ def d14b_degenerate_authority_eager_host(prop, mech, case, info, variant):
     test_all_empty); any copy derives None from the empty netloc.  Bug model:
     exactly the four host accessors differ, '' on the parsed object, None on
     the copy, and the stored netloc is empty."""
-    if mech not in ("eager_lazy_disagree", "history_dependent_outcome"):
+    if mech not in ("eager_lazy_disagree", "history_dependent_outcome", "not_fixed_point"):
         return False
     fields = set(info.get("fields", []))
     if not fields or not fields <= {"raw_host", "host", "host_subcomponent", "host_port_subcomponent"}:
